@@ -466,12 +466,13 @@ def validate_split(cwd, module, cfg, trace, max_lines=25000, workers=4, timeout=
 
 
 def pmap_proc(fn, items, workers=None):
-    """like pmap but in processes (python-heavy work)"""
+    """like pmap but in processes (python-heavy work); a worker that dies is an error, not a hang"""
+    from concurrent.futures import ProcessPoolExecutor
     import multiprocessing as mp
     if not items:
         return []
-    with mp.get_context('fork').Pool(min(workers or NCPU, len(items))) as pool:
-        return pool.map(fn, items)
+    with ProcessPoolExecutor(max_workers=min(workers or NCPU, len(items)), mp_context=mp.get_context('fork')) as ex:
+        return list(ex.map(fn, items))
 
 
 def pmap(fn, items, workers=None):
